@@ -158,6 +158,10 @@ def _run_in_child(spec):
     root, run, scenario = spec['root'], spec['run'], spec['scenario']
     in_dir = os.path.join(root, 'in')
     out_dir = os.path.join(root, spec['name'], 'out')
+    if scenario.get('relative_paths'):
+        # the tool is started inside the directory that holds the input tree and given relative paths
+        os.chdir(root)
+        in_dir, out_dir = 'in', os.path.join(spec['name'], 'out')
     conv_mod_name, conv_fn_name = CONVERTERS[scenario['converter']]
     conv_mod = importlib.import_module(conv_mod_name)
     fn = getattr(conv_mod, conv_fn_name)
